@@ -4,15 +4,15 @@
 set -u
 id=$1; shift
 checks=${*:-$id}
-wt=/tmp/seed/$id
+wt=${SEED_ROOT:-/tmp/seed}/$id
 [ -f "$wt/patch.diff" ] || { echo "no patch.diff in $wt"; exit 3; }
 work=$(mktemp -d /tmp/vkseed.XXXXXX)
 trap 'rm -rf "$work"' EXIT
 # 1. the worktree must contain exactly the patch
 git -C "$wt" checkout -q -- xmlschema
-echo "demo without change: $(cd "$wt" && PYTHONPATH="$wt" /venv/bin/python demo.py >/dev/null 2>&1; echo rc=$?)"
+echo "demo without change: $(cd "$wt" && SEED_REPO="$wt" PYTHONPATH="$wt" /venv/bin/python demo.py >/dev/null 2>&1; echo rc=$?)"
 git -C "$wt" apply "$wt/patch.diff" || { echo "PATCH-DOES-NOT-APPLY"; exit 3; }
-echo "demo with change:    $(cd "$wt" && PYTHONPATH="$wt" /venv/bin/python demo.py >/dev/null 2>&1; echo rc=$?)"
+echo "demo with change:    $(cd "$wt" && SEED_REPO="$wt" PYTHONPATH="$wt" /venv/bin/python demo.py >/dev/null 2>&1; echo rc=$?)"
 git -C "$wt" status --short | grep -v '^??' | head -5
 # 2. pinned suite on a scratch copy with the patch
 rsync -a --exclude .git --exclude '__pycache__' /repo/ "$work/repo/"
